@@ -350,8 +350,15 @@ func genForward(ctx *Ctx, prop string) {
 		if hold != nil {
 			p.stream = (p.stream+1)%30000 + 1
 			st2 := p.stream
-			filler := strings.Repeat("y", len(sent)+r.Intn(64))
-			_ = cl.Send(v, st2, &message.Query{Query: "SELECT v FROM ks.t WHERE k = 'tok:" + tok + "i' -- " + filler, Options: &message.QueryOptions{Consistency: primitive.ConsistencyLevelOne}})
+			if overrides && len(p.list) > 0 {
+				// the held request was re-encoded with the override: the request sent meanwhile is re-encoded too, and is
+				// SHORTER (whatever the first one's bytes were kept in must not be reused for this one)
+				_ = cl.Send(v, st2, &message.Query{Query: "INSERT INTO ks.t (k, v) VALUES ('tok:" + tok + "i', 0)", Options: &message.QueryOptions{Consistency: p.list[r.Intn(len(p.list))]}})
+				ctx.Count("retried-overridden-request-after-another-overridden-request")
+			} else {
+				filler := strings.Repeat("y", len(sent)+r.Intn(64))
+				_ = cl.Send(v, st2, &message.Query{Query: "SELECT v FROM ks.t WHERE k = 'tok:" + tok + "i' -- " + filler, Options: &message.QueryOptions{Consistency: primitive.ConsistencyLevelOne}})
+			}
 			for {
 				f, _ := cl.Next(5 * time.Second)
 				if f == nil || f.Stream == st2 {
